@@ -50,7 +50,9 @@ def generate(seed: int, tier: str) -> dict:
     env = {}
     names = [v["name"] for v in world["variables"]]
     if chance(kr, 0.45):
-        knobs["memory"] = {"max": pick(kr, [0.0, 0.5, 1.0]), "priority": [n for n in names if chance(kr, 0.2)], "drop": []}
+        # (variables to drop: their *computed* values are not kept - inputs are)
+        knobs["memory"] = {"max": pick(kr, [0.0, 0.5, 1.0]), "priority": [n for n in names if chance(kr, 0.2)],
+                           "drop": [n for n in names if chance(kr, 0.25)]}
         env["mem"] = pick(kr, ["high", "high", "flap", "edge", "low"])
         env["mem_seed"] = kr.randrange(1 << 30)
     orr = st["ops"]
